@@ -5,13 +5,17 @@ import itertools
 import random
 
 from ..sim import srv as sim
+from .pumpfam import PumpFamily
 from .srvfam import LINES, ConnFamily, gen_resp, get_loop, parse_model
 
 ID = "C07"
-READY = False
+READY = True
 LEAN_TARGETS = ["NauyacaVerif.Props.C07"]
-THEOREMS = [f"NauyacaVerif.C07.{t}" for t in ("seg_indep", "seg_indep_observables", "seg_indep_then", "at_most_once", "trailing_ignored_gemini")]
+THEOREMS = ['NauyacaVerif.C07.seg_indep', 'NauyacaVerif.C07.seg_indep_observables', 'NauyacaVerif.C07.seg_indep_then', 'NauyacaVerif.C07.at_most_once', 'NauyacaVerif.C07.trailing_ignored_gemini', 'NauyacaVerif.C07.pump_at_most_once', 'NauyacaVerif.C07.pump_rechunk', 'NauyacaVerif.C07.maxRequest_tie']
 EXTRACT = ["maxRequest"]
+LEVEL_TEXT = 'Proved for every configuration, state, non-empty list of reads and every continuation: feeding reads one by one is equivalent to feeding their concatenation (output, invocation counts, uploaded content, phase), bytes after a dispatched request are ignored, at most one handler/upload invocation per connection (also behind the pump, whose 8192-byte re-chunking is absorbed). Correspondence: all 2^(n-1) segmentations of short requests, one/two/multi-cut and byte-by-byte for long ones, late reads while a task is pending, and the TLS ciphertext of the same session cut at arbitrary offsets through the real PyOpenSSL pump. Partial: grouping of TLS records into TCP reads at the pump level is covered by correspondence only (no pump_seg_indep theorem yet).'
+LEVEL_NOTE = "Trusted: Lean kernel (axioms propext, Classical.choice, Quot.sound only); the hand-written model Srv.step/Srv.pumpStep is tied to /repo by extraction (constants, 'every transport.write sits in _send_response') and by the correspondence run of every check (fake transport with asyncio's write-after-close semantics, virtual-clock loop, scripted handlers; real PyOpenSSL pump over memory BIOs); asyncio's transport/timer contract, OpenSSL's record layer and Python exception texts are assumed, see assumptions."
+TECHNIQUE = 'Lean 4 proof (invariant induction over all event lists of an executable connection state machine) + differential correspondence with the real asyncio protocol objects under a virtual clock'
 ASSUMPTIONS = [
     "a TCP/TLS read delivers an arbitrary non-empty chunk of the byte stream, in order (asyncio transport contract)",
     "TLS-record level segmentation (ciphertext cut anywhere, handshake coalesced with application data) is exercised through the real PyOpenSSL pump in family pumpseg; OpenSSL's record reassembly itself is trusted",
@@ -142,4 +146,34 @@ class Late(ConnFamily):
         return self.oracle_once(case, obs)
 
 
-FAMILIES = [Seg(), Late()]
+class PumpSeg(PumpFamily):
+    """the ciphertext of the same session cut at arbitrary offsets (incl. handshake coalesced with application
+    data, several records in one read): same outcome as the uncut delivery, at most one invocation"""
+
+    name = "pumpseg"
+    quick_n = 160
+    thorough_n = 3000
+
+    def impl(self, case):
+        from ..sim import pump as P
+        from .srvfam import get_loop
+
+        loop = get_loop()
+        whole = dict(case)
+        whole["maxcuts"] = 0
+        a = loop.run_until_complete(P.run_pump(loop, case))
+        b = loop.run_until_complete(P.run_pump(loop, whole))
+        a["uncut"] = {k: b[k] for k in ("plain", "h", "u", "m", "content", "tcpclosed")}
+        return a
+
+    def oracle(self, case, obs):
+        v = self.oracle_once(case, obs)
+        if v:
+            return v
+        a = {k: obs[k] for k in ("plain", "h", "u", "m", "content", "tcpclosed")}
+        if a != obs["uncut"]:
+            return ("seg-dependent", f"outcome depends on how the TLS byte stream was cut: {str(a)[:200]} vs uncut {str(obs['uncut'])[:200]}")
+        return None
+
+
+FAMILIES = [Seg(), Late(), PumpSeg()]
